@@ -37,6 +37,26 @@ theorem decodePayload_noFault (t : UInt16) (p : Bytes) (f : Fault) :
     (decodeAvp t : M Bytes DErr AVP) p ≠ .fault f :=
   decodeAvp_noFault t p f
 
+/-! ### arithmetic
+  Every unsigned subtraction on the decode path (`length - Header::LENGTH`, `length - FIXED_LENGTH`,
+  `initial_length - reader.len()`, `length - header_length`, `total_length - Header::LENGTH` in reveal) is the
+  checked step `subM a b` of the model, which is `Fault.panic` when `b > a`.  `decode_total` therefore also says
+  that none of them underflows.  Three are discharged by the comparison just before them; the fourth,
+  `initial_length - reader.len()`, by the fact that no decoder step makes the remaining input longer: -/
+
+theorem header_shrinks (w : UInt16) (s r : Bytes) (h : DataHdr)
+    (hr : (readDataHeader w : M Bytes DErr DataHdr) s = .ok h r) : r.length ≤ s.length :=
+  (readDataHeader_shrinks w).le s h r hr
+
+theorem offset_shrinks (o : Option UInt16) (s r : Bytes)
+    (hr : (skipOffset o : M Bytes DErr Unit) s = .ok () r) : r.length ≤ s.length :=
+  (skipOffset_shrinks o).le s () r hr
+
+/-- the checked subtraction is not decoration: started from a smaller `initial` than what remains it faults -/
+example : (readDataPayload 0 0 ⟨none, 0, 0, none, none⟩ : M Bytes DErr Msg) [1] = .fault .panic := by decide
+/-- and a checked subtraction in the AVP header is what a length below 6 would hit without its guard -/
+example : (subM 3 6 : M Bytes DErr Nat) [] = .fault .panic := by decide
+
 /-! non-vacuity: both outcomes occur; the three pinned-tree crashers are ordinary errors now -/
 example : (decode Opts.strict : M Bytes _ _) [0x13, 0x20, 0, 12, 0, 1, 0, 2, 0, 3, 0, 4]
     = .ok (.control { length := 12, tunnelId := 1, sessionId := 2, ns := 3, nr := 4, avps := [] }) [] := by decide
